@@ -236,7 +236,7 @@ func (p c08) checkText(unit int, rc Recipe, st State, text string, only int, mod
 				}
 				visible := len(abs) > 0
 				for _, t := range loc {
-					if t.TargetableFromRangePtr == nil || t.TargetableFromRangePtr.ContainsPos(pos) || posEqual(t.TargetableFromRangePtr.End, pos) {
+					if t.TargetableFromRangePtr == nil || (t.TargetableFromRangePtr.Filename == q.File && (t.TargetableFromRangePtr.ContainsPos(pos) || posEqual(t.TargetableFromRangePtr.End, pos))) {
 						if t.LocalAddr[0].String() == "self" && !cls.Eff.Ext.SelfRefs {
 							continue
 						}
